@@ -11,7 +11,7 @@ static u64 hexv(u8 c) { return c <= '9' ? c - '0' : c >= 'a' ? c - 'a' + 10 : c 
 static void harness(void) {
   lf_setup(NA);
   u64 o[8] = { 0 };
-  u64 size_in = IN(0, NA + 2);
+  u64 size_in = IN(0, 0xffffffffffffffffULL);   /* the announced chunk size is attacker-controlled: any 64-bit value */
 #if !defined(VF_SPLIT) || defined(V_chunk_size)
   { u64 i = 0, v = 0; for (u64 k = 0; k < NA; ++k) { if (lf_start + i < lf_n && ishex(B(lf_start + i))) { v = (v << 4) | hexv(B(lf_start + i)); i++; } else break; }
     w_chunk_size_r(lf_buf, lf_n, lf_start, o);
@@ -20,12 +20,12 @@ static void harness(void) {
     REACH(i == 2, "two hex digits"); REACH(i == 0, "no hex digit"); }
 #endif
 #if !defined(VF_SPLIT) || defined(V_chunk_data)
-  { int ok = lf_start + size_in <= lf_n;
+  { int ok = size_in <= lf_n - lf_start;
     w_chunk_data_r(lf_buf, lf_n, lf_start, size_in, o);
     CHECK(o[0] == (u64)ok, "chunk_data matches iff size bytes are available");
     CHECK(o[1] == (ok ? lf_start + size_in : lf_start), "chunk_data consumes exactly size bytes or nothing");
     CHECK(o[1] <= lf_n, "cursor never past the end");
-    REACH(ok && size_in == 2, "two data bytes"); REACH(!ok, "not enough data"); }
+    REACH(ok && size_in == 2, "two data bytes"); REACH(!ok, "not enough data"); REACH(size_in > 0xfffffffffffffff0ULL, "announced size close to 2^64"); }
 #endif
 #if !defined(VF_SPLIT) || defined(V_chunk)
   { /* chunk = chunk-size chunk-ext CRLF chunk-data CRLF ; only the rewind contract is checked here */
